@@ -526,7 +526,9 @@ def cert_items(ctx):
         for sel in range(1, 7):
             pts = euler_points(r, sel, b, scale)
             if ctx.quick():
-                keep = [x for x in pts if x[1] in ("uniform",)] + r.sample([x for x in pts if x[1] not in ("uniform",)], 2)
+                # one uniform point and one special point per row; the special families rotate over the 12 rows
+                spec = [x for x in pts if x[1] != "uniform"]
+                keep = [x for x in pts if x[1] == "uniform"][:1] + [spec[(sel + (6 if b else 0)) % len(spec)]]
             else:
                 keep = pts
             for p, fam in keep:
